@@ -16,9 +16,9 @@ from lib import driver as D
 
 EXT_MUTANTS = ["upsertReplacesAll", "setByUrlDropsOthers", "appendDedups", "unwrapLosesValue", "upsertOkIgnoresOthers"]
 WRAP_MUTANTS = ["snakeIgnoresDigits", "noKeywordRule", "slotCollision", "unwrapCopies", "bundleReverses"]
-OWNERS = ["Patient", "HumanName", "String", "Contact"]
+OWNERS = ["Patient", "HumanName", "String", "Contact", "OrgContact", "Dosage", "KnowledgeDosage"]
 XTYPES = ["Reference", "Identifier", "Coding", "Extension", "string", "dateTime"]
-MODEL_RES = ["MR1", "MR2", "MR3", "MR4", "C20_X1", "C20_X2", "C20_X3", "C20_X4", "C20_X5"]
+MODEL_RES = ["MR1", "MR2", "MR3", "MR4", "C20_X1", "C20_X2", "C20_X3", "C20_X4", "C20_X5", "C20_X6"]
 JUDGE_CHUNK_BYTES = 16 << 20
 
 
